@@ -510,7 +510,18 @@ def _pure_chain_expr(e):
         if isinstance(x, ast.IfExp):
             return rec(x.test) and rec(x.body) and rec(x.orelse)
         return False
-    if isinstance(e, (ast.Compare, ast.BoolOp, ast.BinOp, ast.UnaryOp, ast.IfExp)) and rec(e):
+    def boolean(x):
+        # a truth value: comparison, and / or / not over such, a conditional expression of such or of constants
+        if isinstance(x, ast.Compare):
+            return True
+        if isinstance(x, ast.BoolOp):
+            return True
+        if isinstance(x, ast.UnaryOp) and isinstance(x.op, ast.Not):
+            return True
+        if isinstance(x, ast.IfExp):
+            return all(boolean(y) or isinstance(y, ast.Constant) for y in (x.body, x.orelse))
+        return False
+    if boolean(e) and rec(e):
         return chains
     return None
 
